@@ -13,7 +13,7 @@ Laws == {"DM(-D)oDM(D)=id", "DM(D1)oDM(D2)=DM(D1+D2)", "FIBER(L,b2)=DM(b2*L)", "
 \* (relative error 1.3e-5 in the exponent), so laws that involve attenuation get 2e-4 per 10 dB.
 LawTol(e) == 1000 + e.dB * 20000
 Clauses(e) ==
-  CASE e.kind = "law" -> IF e.name \notin Laws THEN {"unknown-law"} ELSE IF e.ppt > LawTol(e) * 1000 THEN {e.name} ELSE {}
+  CASE e.kind = "law" -> IF e.name \notin Laws THEN {"unknown-law"} ELSE IF e.ppt \div 1000 > LawTol(e) THEN {e.name} ELSE {}
     [] e.kind = "energy" -> IF e.ppb > 1000 + e.dB * 20000 THEN {"energy-" \o e.what} ELSE {}
     [] e.kind = "shape" -> IF ~e.same THEN {"shape-not-preserved"} ELSE {}
 Bad == UNION {{<<i, c>> : c \in Clauses(Trace[i])} : i \in 1..Len(Trace)}
